@@ -37,6 +37,15 @@ func (e *Engine) loadLocalsBaseline(verifDir string) {
 		return
 	}
 	json.Unmarshal(data, &e.localsBase)
+	if data, err := os.ReadFile(filepath.Join(verifDir, "baseline", "funcs.json")); err == nil {
+		var names []string
+		if json.Unmarshal(data, &names) == nil {
+			e.funcsBase = map[string]bool{}
+			for _, n := range names {
+				e.funcsBase[n] = true
+			}
+		}
+	}
 }
 
 // saveLocalsBaseline merges the declarations of the given functions into baseline/locals.json.
@@ -68,6 +77,14 @@ func (e *Engine) saveLocalsBaseline(verifDir string, fns []*types.Func) {
 	}
 	b.WriteString("}\n")
 	os.WriteFile(filepath.Join(verifDir, "baseline", "locals.json"), []byte(b.String()), 0o644)
+	// every function of the repository packages (to recognise helpers added later)
+	var names []string
+	for fn := range e.funcs {
+		names = append(names, funcKey(fn))
+	}
+	sort.Strings(names)
+	data, _ := json.MarshalIndent(names, "", " ")
+	os.WriteFile(filepath.Join(verifDir, "baseline", "funcs.json"), append(data, '\n'), 0o644)
 }
 
 // localDecls lists parameters, results and every variable declared in the body, in source order.
@@ -151,6 +168,19 @@ func (e *Engine) renames(fn *types.Func) *renameMaps {
 	i, j := 0, 0
 	var gapOld, gapCur []localDecl
 	flush := func() {
+		// declarations that merely moved (the name still exists on the other side) are no rename candidates
+		var fo, fc []localDecl
+		for _, d := range gapOld {
+			if curNames[d.Name] < oldNames[d.Name] {
+				fo = append(fo, d)
+			}
+		}
+		for _, d := range gapCur {
+			if oldNames[d.Name] == 0 {
+				fc = append(fc, d)
+			}
+		}
+		gapOld, gapCur = fo, fc
 		if len(gapOld) == len(gapCur) {
 			for k := range gapOld {
 				o, c := gapOld[k], gapCur[k]
@@ -237,4 +267,132 @@ func (u *Unit) stableText(s string) string {
 		i++
 	}
 	return b.String()
+}
+
+// ---- loop / literal ordinals against the baseline ----
+// Contracts address loops and function literals of a body by ordinal. The baseline records the
+// "shape" of every body under contract: one signature per loop (kind + header text) and per literal
+// (its type). On a later tree the current signatures are aligned with the recorded ones (LCS), and
+// each current loop / literal gets the ordinal of its baseline counterpart; new ones get ordinals no
+// contract mentions; baseline ones without counterpart are reported so that their ledger obligations
+// count as undecided (the loop was removed or moved into a helper), not as violated.
+
+type bodyShape struct {
+	Loops []string `json:"loops"`
+	Lits  []string `json:"lits"`
+}
+
+func (u *Unit) shapeOf(body ast.Node, info *types.Info, loops map[ast.Node]int, lits map[*ast.FuncLit]int) bodyShape {
+	sh := bodyShape{Loops: make([]string, len(loops)), Lits: make([]string, len(lits))}
+	for n, k := range loops {
+		switch x := n.(type) {
+		case *ast.RangeStmt:
+			sh.Loops[k-1] = u.stableText("range:" + exprText(x.X))
+		case *ast.ForStmt:
+			c := ""
+			if x.Cond != nil {
+				c = exprText(x.Cond)
+			}
+			sh.Loops[k-1] = u.stableText("for:" + c)
+		}
+	}
+	for l, k := range lits {
+		t := ""
+		if tv := info.TypeOf(l); tv != nil {
+			t = types.TypeString(tv, func(p *types.Package) string { return p.Name() })
+		}
+		sh.Lits[k-1] = t
+	}
+	return sh
+}
+
+// alignOrdinals maps current ordinals (1-based) to baseline ordinals; unmatched current entries get
+// 1000+k. It also returns the baseline ordinals that have no current counterpart.
+func alignOrdinals(base, cur []string) (map[int]int, []int) {
+	n, m := len(base), len(cur)
+	lcs := make([][]int, n+1)
+	for i := range lcs {
+		lcs[i] = make([]int, m+1)
+	}
+	for i := n - 1; i >= 0; i-- {
+		for j := m - 1; j >= 0; j-- {
+			if base[i] == cur[j] {
+				lcs[i][j] = lcs[i+1][j+1] + 1
+			} else if lcs[i+1][j] >= lcs[i][j+1] {
+				lcs[i][j] = lcs[i+1][j]
+			} else {
+				lcs[i][j] = lcs[i][j+1]
+			}
+		}
+	}
+	mp := map[int]int{}
+	matched := map[int]bool{}
+	i, j := 0, 0
+	var gb, gc []int
+	flush := func() {
+		// a gap of equal size on both sides: headers were edited in place, keep positions
+		if len(gb) == len(gc) {
+			for k := range gb {
+				mp[gc[k]+1] = gb[k] + 1
+				matched[gb[k]] = true
+			}
+		}
+		gb, gc = nil, nil
+	}
+	for i < n && j < m {
+		switch {
+		case base[i] == cur[j]:
+			flush()
+			mp[j+1] = i + 1
+			matched[i] = true
+			i++
+			j++
+		case lcs[i+1][j] >= lcs[i][j+1]:
+			gb = append(gb, i)
+			i++
+		default:
+			gc = append(gc, j)
+			j++
+		}
+	}
+	for ; i < n; i++ {
+		gb = append(gb, i)
+	}
+	for ; j < m; j++ {
+		gc = append(gc, j)
+	}
+	flush()
+	var gone []int
+	for k := 0; k < n; k++ {
+		if !matched[k] {
+			gone = append(gone, k+1)
+		}
+	}
+	for k := 1; k <= m; k++ {
+		if _, ok := mp[k]; !ok {
+			mp[k] = 1000 + k
+		}
+	}
+	return mp, gone
+}
+
+func (e *Engine) loadShapes(verifDir string) {
+	e.shapesBase = map[string]bodyShape{}
+	if data, err := os.ReadFile(filepath.Join(verifDir, "baseline", "shapes.json")); err == nil {
+		json.Unmarshal(data, &e.shapesBase)
+	}
+}
+
+func (e *Engine) saveShapes(verifDir string, units []*Unit) {
+	all := map[string]bodyShape{}
+	if data, err := os.ReadFile(filepath.Join(verifDir, "baseline", "shapes.json")); err == nil {
+		json.Unmarshal(data, &all)
+	}
+	for _, u := range units {
+		if u.shape != nil {
+			all[u.name] = *u.shape
+		}
+	}
+	data, _ := json.MarshalIndent(all, "", " ")
+	os.WriteFile(filepath.Join(verifDir, "baseline", "shapes.json"), append(data, '\n'), 0o644)
 }
